@@ -414,6 +414,10 @@ SIZE_PROBES = [
     "sizeof(0 ? arr : arr) == sizeof(int *)", "sizeof(+*pa) == sizeof(int *)"[:0] or "sizeof(&arr[0]) == sizeof(int *)", "sizeof(*&arr) == 3 * sizeof(int)", "sizeof((arr)) == 3 * sizeof(int)",
     "sizeof(typeof((0, arr))) == sizeof(int *)", "sizeof(typeof(arr)) == 3 * sizeof(int)", "sizeof(typeof((arr))) == 3 * sizeof(int)", "sizeof(typeof(0, carr[0])) == sizeof(int)",
     "_Generic(&(typeof((0, carr[0]))){0}, int *: 1, const int *: 0)", "_Generic(&(typeof(carr[0])){0}, int *: 0, const int *: 1)", "_Generic(&(typeof((1, csq.m))){0}, int *: 1, default: 0)",
+    # array types made by the compiler (string literals, completed initialisers) have a length like any other
+    "_Generic(&\"abc\", char (*)[10]: 0, char (*)[4]: 1, default: 0)", "_Generic(&\"\", char (*)[1]: 1, default: 0)", "_Generic(&u\"ab\", unsigned short (*)[3]: 1, default: 0)",
+    "_Generic(&(int[]){ 1, 2 }, int (*)[3]: 0, int (*)[2]: 1, default: 0)", "_Generic(&arr, int (*)[4]: 0, int (*)[3]: 1, default: 0)", "__builtin_types_compatible_p(typeof(\"abc\"), char[4])",
+    "!__builtin_types_compatible_p(typeof(\"abc\"), char[5])", "!__builtin_types_compatible_p(typeof((int[]){ 1 }), int[2])",
     "sizeof(1 ? carr : carr) == sizeof(int *)", "sizeof((char)1, arr) == sizeof(int *)", "sizeof(0, (0, arr)) == sizeof(int *)",
 ]
 
